@@ -9,10 +9,12 @@ git -C /repo worktree add -q --detach "$wt" HEAD || exit 2
 demo=$(ls $src/*_test.go | head -1)
 cp "$demo" "$wt/"
 name=$(basename "$demo")
-( cd "$wt" && go test -vet=off -count=1 -run 'Demo|ZZ' . > /tmp/seedeval_$id.without 2>&1 ); rc_without=$?
+runre=$(grep -o '^func Test[A-Za-z0-9_]*' "$demo" | sed 's/func //' | paste -sd'|')
+demoflags=${SEED_DEMO_FLAGS:-}
+( cd "$wt" && go test -vet=off -count=1 $demoflags -run "^($runre)\$" . > /tmp/seedeval_$id.without 2>&1 ); rc_without=$?
 ( cd "$wt" && git apply "$src/patch.diff" ) || { echo "$id: patch does not apply"; git -C /repo worktree remove --force "$wt"; exit 2; }
 ( cd "$wt" && go build ./... ) || { echo "$id: does not build"; }
-( cd "$wt" && go test -vet=off -count=1 -run 'Demo|ZZ' . > /tmp/seedeval_$id.with 2>&1 ); rc_with=$?
+( cd "$wt" && go test -vet=off -count=1 $demoflags -run "^($runre)\$" . > /tmp/seedeval_$id.with 2>&1 ); rc_with=$?
 rm -f "$wt/$name"
 ( cd "$wt" && go test -vet=off -count=1 . > /tmp/seedeval_$id.suite 2>&1 ); rc_suite=$?
 echo "$id: demo without change rc=$rc_without (want 0); demo with change rc=$rc_with (want !=0); existing suite with change rc=$rc_suite (want 0)"
